@@ -101,6 +101,57 @@ def rule_a(ck):
                'one allocation at most, only without block and error; failure recorded as EBUSY; always consumes n' if bad is None and nalloc >= 2 else (bad or 'allocation paths not found'))
 
 
+def rule_alloc(ck):
+    """C09.b (allocator half): block_alloc / block_free forward to the configured allocator; the default allocator
+    really allocates and frees"""
+    rel = 'src/allocator.c'
+    try:
+        u = cast.load(rel)
+    except Exception as e:
+        return ck.broken('C09.b', 'allocator.c', rel, str(e))
+    ck.unit(rel)
+    eng = sym.Engine(u, sizeof=sym.unit_sizeofs(rel, u), inline=set())
+    ba, m = ('v', 'ba'), ('v', 'm')
+    # block_free
+    for fn in ('block_free', 'block_alloc', 'ufw_mfree', 'ufw_malloc'):
+        if u.fn(fn) is None:
+            ck.broken('C09.b', fn, '', 'function missing')
+            continue
+        ck.function(fn)
+        ps = eng.paths(fn)
+        ck.analysed['paths'] += len(ps)
+        bad = None
+        for p in ps:
+            ic = [e for e in p.effects if e.kind in ('icall', 'call')]
+            if fn == 'block_free':
+                if len(ic) != 1 or not ic[0].name.endswith('free') or list(ic[0].args) != [('f', ba, 'driver'), m]:
+                    bad = 'does not hand the block to ba->free(ba->driver, m): %s' % [(e.name, [fmt(a) for a in e.args]) for e in ic]
+            elif fn == 'block_alloc':
+                if len(ic) != 1 or ic[0].args[0] != ('f', ba, 'driver') or ic[0].args[1] != m or strip_cast(p.ret) != ic[0].result:
+                    bad = 'does not forward to the configured allocator and return its result'
+                generic = any('type ==' in fmt(c) for c in p.cond_terms())
+                if ic and ic[0].name.endswith('generic') and (len(ic[0].args) != 3 or ic[0].args[2] != ('f', ba, 'blocksize')):
+                    bad = bad or 'generic allocator is asked for %s octets, not for the block size' % (fmt(ic[0].args[2]) if len(ic[0].args) > 2 else '?')
+            elif fn == 'ufw_mfree':
+                if len(ic) != 1 or ic[0].name != 'free' or ic[0].args[0] != m:
+                    bad = 'the default allocator does not free(m)'
+            elif fn == 'ufw_malloc':
+                if len(ic) != 1 or ic[0].name != 'malloc' or ic[0].args[0] != ('v', 'n'):
+                    bad = 'the default allocator does not malloc(n)'
+                else:
+                    st = [e for e in p.stores() if strip_cast(e.args[0]) == ic[0].result]
+                    if not st:
+                        bad = 'the allocated block is not stored through m'
+                    null = any(c[0] == 'cmp' and c[1] == '==' and c[3] == C(0) and sym.contains(c[2], ic[0].result) for c in p.cond_terms())
+                    if null and not (sym.is_c(p.ret) and p.ret[1] < 0):
+                        bad = bad or 'a failed malloc is reported as %s' % fmt(p.ret)
+                    if not null and p.ret != C(0):
+                        bad = bad or 'a successful malloc is reported as %s' % fmt(p.ret)
+        ck.verdict(bad is None, 'C09.b', fn, cast.where(u.fn(fn)),
+                   {'block_free': 'forwards (driver, m) to the allocator\'s free', 'block_alloc': 'forwards to the configured allocator with the block size and returns its result',
+                    'ufw_mfree': 'free(m)', 'ufw_malloc': 'malloc(n) stored through m; NULL reported as a negative result'}[fn] if bad is None else bad)
+
+
 def rule_init(ck):
     """C09.a (set-up half): the sink starts without block, without error and empty"""
     u = cast.load(CS_UNIT)
@@ -397,6 +448,7 @@ def run(ck):
     ck.assumptions += ['ByteBuffer invariant offset <= used <= size (C18)', 'a frame object lives at the start of its block (regp_recv: mf->frame = cs.buffer.data)']
     rule_a(ck)
     rule_init(ck)
+    rule_alloc(ck)
     R = Regp(ck)
     rule_bce(ck, R)
     rule_d(ck, R)
